@@ -214,6 +214,18 @@ func libCase(run *sim.Run, i int) {
 		swapped, _ := tss.NewSignatureFromComponents(other.sig.R(), v.sig.S())
 		cs = append(cs, corr{"other-R", tss.VerifySigningSignature(groupNonce, groupPub, msg, v.lagrange, swapped, v.pub)})
 	}
+	// the member's nonce point with the scalar of the negated nonce: s'G - c*lambda*Y = -R (same x, other y);
+	// also against the group check, which must not take (R, s') with s'G - cY = -R for a valid signature
+	negK := new(big.Int).Sub(ref.N(), new(big.Int).SetBytes(v.privNonce))
+	nb := make([]byte, 32)
+	negK.FillBytes(nb)
+	if alt, err := tss.SignSigning(groupNonce, groupPub, msg, v.lagrange, tss.Scalar(nb), v.priv); err == nil {
+		forged, _ := tss.NewSignatureFromComponents(v.sig.R(), alt.S())
+		cs = append(cs, corr{"negated-nonce", tss.VerifySigningSignature(groupNonce, groupPub, msg, v.lagrange, forged, v.pub)})
+		if len(ms) == 1 {
+			cs = append(cs, corr{"negated-nonce-as-group-signature", tss.VerifyGroupSigningSignature(groupPub, msg, forged)})
+		}
+	}
 	otherNonce := scalarOf(randScalar(r)).Point()
 	cs = append(cs, corr{"other-group-nonce", tss.VerifySigningSignature(otherNonce, groupPub, msg, v.lagrange, v.sig, v.pub)})
 	for _, c := range cs {
@@ -361,9 +373,9 @@ func replayMask(run *sim.Run, mask uint32) {
 func main() {
 	run := sim.NewRun("C03", "exploration")
 	run.SetRule("(a) library cases: random Shamir sharing (big.Int), member ids up to 2^20, committee = random subset of size >= threshold, " +
-		"all shares + combined signature checked by pkg/tss and two independent verifiers, 6 single-component corruptions each must be rejected; " +
+		"all shares + combined signature checked by pkg/tss and two independent verifiers, 7 single-component corruptions each must be rejected; " +
 		"Lagrange coefficients vs big.Int reference (sampled quick / all 2^20 subsets thorough). (b) chain histories: every MsgSubmitSignature " +
-		"tagged by intent (honest / corrupt-z / corrupt-R / corrupt-memberid / corrupt-message / corrupt-committee / not-assigned / replay / duplicate) " +
+		"tagged by intent (honest / corrupt-z / negated-nonce / corrupt-R / corrupt-memberid / corrupt-message / corrupt-committee / not-assigned / replay / duplicate) " +
 		"must be accepted iff honest; published signatures re-verified. distinct = distinct (member-id set, threshold) committees")
 	run.Assume("reference verifiers trust decred secp256k1 curve arithmetic and go-ethereum Ecrecover",
 		"'any threshold-sized committee suffices' is observed for the committees the samplers draw, not all C(n,t)")
@@ -399,7 +411,7 @@ func main() {
 	}, nil)
 	for _, c := range []string{"lib-cases-with-id-above-20", "lib-committee-larger-than-threshold", "lagrange-pairs-compared", "group-signatures-verified",
 		"tx:sig:honest:ok", "tx:sig:corrupt-z:rejected", "tx:sig:corrupt-R:rejected", "tx:sig:corrupt-memberid:rejected",
-		"tx:sig:corrupt-message:rejected", "tx:sig:corrupt-nonce:rejected", "tx:sig:not-assigned:rejected"} {
+		"tx:sig:corrupt-message:rejected", "tx:sig:corrupt-nonce:rejected", "tx:sig:not-assigned:rejected", "tx:sig:negated-nonce:rejected"} {
 		run.Require(c, 1)
 	}
 	run.Finish()
